@@ -210,7 +210,7 @@ func runC20VLine(l C20VLine) (*c20vObs, *core.Violation) {
 		}
 		ctx.HandleInactive(ex)
 	}), netty.InboundHandlerFunc(func(ctx netty.InboundContext, m netty.Message) {
-		if rSlow > 0 {
+		if _, fromTimeline := m.(string); fromTimeline && rSlow > 0 {
 			clock.Advance(rSlow)
 		}
 		if rd, ok := m.(interface{ Read([]byte) (int, error) }); ok {
@@ -227,6 +227,11 @@ func runC20VLine(l C20VLine) (*c20vObs, *core.Violation) {
 		}
 	}))
 	pl.ServeChannel(ch)
+	// the read loop's own delivery (the transport as the message) parks in the last inbound handler: wait for that, so
+	// that nothing of it runs beside the timeline
+	if l.OnActive != "close" && !tr.WaitReadParked(10*time.Second) {
+		return obs, nil
+	}
 
 	guard := func(f func()) {
 		defer func() { _ = recover() }()
